@@ -80,9 +80,10 @@ def version() -> str:  # pragma: no cover
 @cache
 def get_source_lines(filepath: str) -> list[str]:
     # Decode the file the way Python does (BOM, PEP 263 coding cookie) instead of
-    # assuming UTF-8.
+    # assuming UTF-8, and split it into the lines Python (and so Mypy) numbers:
+    # `str.splitlines()` would also split at form feeds, U+2028 and the like.
     with tokenize.open(filepath) as f:
-        return f.read().splitlines()
+        return f.read().split("\n")
 
 
 def is_ignored_via_comment(error: Error) -> bool:
